@@ -1,5 +1,5 @@
 """C05 - after any edit history the tree is still a valid syntax tree of its tokens."""
-import session, slicegrid
+import session, slicegrid, claimprobes
 
 ID = 'C05'
 PROPERTY_FILE = 'Autobean/Properties/C05.lean'
@@ -29,6 +29,7 @@ def run(ctx):
     session.run_sessions(ctx, ctx.scale(250, 6000), ctx.scale(14, 40), ['inv'], observers=obs)
     session.finish_observers(ctx, obs)
     slicegrid.run(ctx, ['inv'])
+    claimprobes.run(ctx)
 
 
 def search(ctx, hints):
